@@ -31,6 +31,8 @@ def check(m, run):
     # the admissibility test relies on the multiplicity count: every knot within the tolerance of the parameter is counted
     from . import c03 as _c03
     _c03.tol2(m, run)
+    from .. import skel_drivers as _sdk
+    _sdk.kd5(m, run)       # the per-row helpers dispatch on isinstance(point[0], float): the setters store floats
 
 
 def _skel(m, run):
